@@ -86,7 +86,11 @@ func (p Params) Validate() error {
 		return err
 	}
 
-	return validateHouseParticipationFee(p.HouseParticipationFee)
+	if err := validateHouseParticipationFee(p.HouseParticipationFee); err != nil {
+		return err
+	}
+
+	return validateMaxWithdrawalCount(p.MaxWithdrawalCount)
 }
 
 // validateMinimumDeposit performs a minimum acceptable deposit validation
